@@ -493,5 +493,28 @@ func main() {
 			}
 		}
 		r.Par(len(cases), func(i int) { checkCase(r, cases[i]) })
+		// The classification is a function of the element alone: with every rule key (and
+		// area, type, ...) declared uninteresting in the package-level osm.UninterestingTags -
+		// the table an application edits to steer osmgeojson - every fifth case gives the same
+		// answers. (The map is written before and after the parallel pass, never during it.)
+		saved := map[string]bool{}
+		for k, v := range osm.UninterestingTags {
+			saved[k] = v
+		}
+		for _, rl := range published {
+			osm.UninterestingTags[rl.key] = true
+		}
+		for _, k := range []string{"area", "type", "name", "k", "v"} {
+			osm.UninterestingTags[k] = true
+		}
+		n := (len(cases) + 4) / 5
+		r.Par(n, func(i int) { checkCase(r, cases[i*5]) })
+		r.Set("cases_repeated_with_every_rule_key_uninteresting", n)
+		for k := range osm.UninterestingTags {
+			delete(osm.UninterestingTags, k)
+		}
+		for k, v := range saved {
+			osm.UninterestingTags[k] = v
+		}
 	})
 }
